@@ -202,6 +202,14 @@ theorem C09_stdio_reader (evs : List Ev) (s : St) (hr : run true {} evs = some s
     around the whole frame or emits the frame with a single `Write`. Complete regenerated table. -/
 theorem C09_all_writers_framed : ∀ w ∈ Mcp.Gen.writers, Mcp.Gen.Writer.framed w = true := by decide
 
+/-- T-gen: the stdio server writes the terminator of a frame UNCONDITIONALLY — both write calls of
+    `stdioTransport.writeResponse` are statements of the function body itself, and one of them writes the LF. (A writer
+    that cuts the frame into pieces and attaches the LF to the last piece `if len(data) > 0` keeps its two call sites
+    under the mutex — the writer table above does not change — and loses the terminator for bodies of exactly k·64 KiB;
+    the run-time side is the exact-size phase of the harness.) -/
+theorem C09_stdio_terminator_unconditional :
+    Mcp.Gen.stdioTerminatorUnconditional = true ∧ Mcp.Gen.stdioUnconditionalWrites = 2 := by decide
+
 /-- The table covers exactly the writer functions we know about (a new writer cannot appear un-modelled). -/
 theorem C09_writers_complete : Mcp.Gen.writers.map (·.fn) = Mcp.Gen.expectedWriters := by decide
 
